@@ -50,6 +50,12 @@ pub fn msg_modelled(m: &Message) -> bool {
     m.answers.iter().chain(m.authorities.iter()).chain(m.additionals.iter()).all(|r| rdata_modelled(&r.data))
 }
 
+/// what an assembled message is compared by: the canonical dump plus the `ResponseCode` variant
+/// (the dump prints the code as a number, under which BADVERS and BADSIG coincide)
+pub fn asm_dump(m: &Message) -> String {
+    format!("{}|{:?}", show_message(m), m.metadata.response_code)
+}
+
 pub fn fnv1a(b: &[u8]) -> u64 {
     let mut h: u64 = 14695981039346656037;
     for x in b {
@@ -155,6 +161,8 @@ pub fn judge_truncation(orig: &Message, out: &[u8], limit: usize, what: &str, fa
 pub struct MsgVerdict {
     pub out: String,
     pub fails: Vec<String>,
+    /// known-finding class of the failures ("" = none)
+    pub class: &'static str,
     pub n_limits: usize,
     pub n_truncated: usize,
     pub n_err: usize,
@@ -265,7 +273,7 @@ pub fn run_line(t: &[&str]) -> Option<MsgVerdict> {
                 }
             }
             let out = if msg_modelled(&m) { outs.join("|") } else { "~".into() };
-            Some(MsgVerdict { out, fails, n_limits: ls.len(), n_truncated: n_tr, n_err, n_full, kind: "msg", len: bytes.len() })
+            Some(MsgVerdict { out, fails, class: "", n_limits: ls.len(), n_truncated: n_tr, n_err, n_full, kind: "msg", len: bytes.len() })
         }
         ["resp", proto, adv, hx] => {
             let bytes = unhex(hx)?;
@@ -328,23 +336,76 @@ pub fn run_line(t: &[&str]) -> Option<MsgVerdict> {
                 }
             };
             let out = if msg_modelled(&m) { out } else { "~".into() };
-            Some(MsgVerdict { out, fails, n_limits: 1, n_truncated: n_tr, n_err, n_full, kind: if tcp { "resp.tcp" } else { "resp.udp" }, len: bytes.len() })
+            Some(MsgVerdict { out, fails, class: "", n_limits: 1, n_truncated: n_tr, n_err, n_full, kind: if tcp { "resp.tcp" } else { "resp.udp" }, len: bytes.len() })
         }
         ["rt", hx] => {
             let bytes = unhex(hx)?;
             let m = Message::from_vec(&bytes).ok()?;
+            let mut class = "";
             let (out, n_err) = match m.to_vec() {
                 Ok(b) => {
                     let mut d = BinDecoder::new(&b);
                     match Message::read(&mut d) {
-                        Ok(m2) => (format!("ok {} {} {}", b.len(), d.index(), show_message(&m2)), 0),
-                        Err(_) => ("redecode-err".to_string(), 1),
+                        Ok(m2) => {
+                            // the property: the re-encoding decodes to the same message, all of it
+                            let (d1, d2) = (show_message(&m), show_message(&m2));
+                            if d1 != d2 {
+                                if m2.metadata.truncation && !m.metadata.truncation && b.len() > 65000 {
+                                    class = "C02.ReencodeExceeds64K";
+                                }
+                                fails.push(format!("re-encoding decodes to a different message: {} vs {}", &d1[..d1.len().min(300)], &d2[..d2.len().min(300)]));
+                            }
+                            if !d.is_empty() {
+                                fails.push(format!("{} octets left over after decoding the re-encoding", d.len()));
+                            }
+                            // upstream fuzz oracle 1 (fuzz_targets/message.rs)
+                            if !crate::props::fuzzoracle::messages_equal(&m, &m2) {
+                                fails.push("upstream oracle message.rs: original != reparsed".into());
+                            }
+                            // upstream fuzz oracle 2 (fuzz_targets/preserve_rdata.rs)
+                            match catch(|| crate::props::fuzzoracle::preserve_rdata(&bytes, &b)) {
+                                Ok(Ok(())) => {}
+                                Ok(Err(e)) => fails.push(format!("upstream oracle preserve_rdata.rs: {e}")),
+                                Err(p) => fails.push(format!("upstream oracle preserve_rdata.rs panicked: {p}")),
+                            }
+                            (format!("ok {} {} {}", b.len(), d.index(), d2), 0)
+                        }
+                        Err(e) => {
+                            fails.push(format!("re-encoding does not decode: {e}"));
+                            ("redecode-err".to_string(), 1)
+                        }
                     }
                 }
-                Err(_) => ("err".to_string(), 1),
+                Err(e) => {
+                    fails.push(format!("a decoded message failed to serialize: {e}"));
+                    ("err".to_string(), 1)
+                }
             };
             let out = if msg_modelled(&m) { out } else { "~".into() };
-            Some(MsgVerdict { out, fails, n_limits: 1, n_truncated: 0, n_err, n_full: 1 - n_err, kind: "rt", len: bytes.len() })
+            Some(MsgVerdict { out, fails, class, n_limits: 1, n_truncated: 0, n_err, n_full: 1 - n_err, kind: "rt", len: bytes.len() })
+        }
+        ["asm", hx, want] => {
+            // an assembled message (the generator's own value, dumped before encoding) must decode,
+            // after encoding, to itself: `want` is the FNV-1a of its dump
+            let bytes = unhex(hx)?;
+            let want: u64 = want.parse().ok()?;
+            let mut class = "";
+            match Message::from_vec(&bytes) {
+                Ok(m) => {
+                    let dump = asm_dump(&m);
+                    if fnv1a(dump.as_bytes()) != want {
+                        if std::env::var("HK_DEBUG").is_ok() {
+                            eprintln!("GOT {want} {dump}");
+                        }
+                        if u16::from(m.metadata.response_code) == 16 {
+                            class = "C02.BadVersBadSigAlias";
+                        }
+                        fails.push(format!("assembled message decodes, after encoding, to a different message: {}", &dump[..dump.len().min(400)]));
+                    }
+                }
+                Err(e) => fails.push(format!("assembled message does not decode after encoding: {e}")),
+            }
+            Some(MsgVerdict { out: "~".into(), fails, class, n_limits: 1, n_truncated: 0, n_err: 0, n_full: 1, kind: "asm", len: bytes.len() })
         }
         _ => None,
     }
@@ -398,7 +459,7 @@ pub fn exec(line: &str, rec: &mut Recorder, nontrivial: impl Fn(&MsgVerdict) -> 
                 rec.nontrivial(idx);
             }
             for f in v.fails {
-                rec.fail(idx, f, "");
+                rec.fail(idx, f, v.class);
             }
         }
         Ok(None) => rec.stat(&format!("skipped.unusable-{}", t.first().copied().unwrap_or("?"))),
@@ -470,8 +531,8 @@ pub fn gen_rdata_tier(r: &mut Rng, pool: &mut NamePool) -> RData {
         7 => RData::SOA(SOA::new(pool.name(r, false), pool.name(r, false), r.next() as u32, r.next() as i32, r.next() as i32, r.next() as i32, r.next() as u32)),
         8 => {
             // (a TXT without strings encodes to RDLENGTH 0, which decodes as Update0 and is rejected
-            // outside UPDATE messages: such a record is not a valid record; kept rare)
-            let k = if r.chance(1, 40) { 0 } else { r.range(1, 3) };
+            // outside UPDATE messages: not a valid record — see the built-in cases of c02.rs)
+            let k = r.range(1, 3);
             let strs: Vec<Vec<u8>> = (0..k)
                 .map(|_| {
                     let n = *r.pick(&[0usize, 1, 7, 31, 120]);
@@ -559,15 +620,14 @@ pub fn gen_message_tier(r: &mut Rng, rec: &mut Recorder, big: bool) -> Option<Me
             *e.options_mut() = crate::props::c01::gen_opt(r);
         }
         m.set_edns(e);
-        if r.chance(1, 6) {
-            // an extended response code needs EDNS
-            m.metadata.response_code = ResponseCode::from(*r.pick(&[1u8, 2, 255]), r.below(16) as u8);
-        }
     }
-    if m.edns.is_none() || r.chance(1, 2) {
-        let low = r.below(11) as u8;
-        let high = m.metadata.response_code.high();
-        m.metadata.response_code = ResponseCode::from(high, low);
+    let low = r.below(11) as u8;
+    // an extended response code needs EDNS; `Edns::rcode_high` mirrors the header's high bits (emit
+    // overwrites it with them); 16 is avoided here (BADVERS/BADSIG alias, see the built-in cases)
+    let high = if m.edns.is_some() && r.chance(1, 5) { *r.pick(&[2u8, 3, 255]) } else { 0 };
+    m.metadata.response_code = ResponseCode::from(high, low);
+    if let Some(e) = m.edns.as_mut() {
+        e.set_rcode_high(high);
     }
     if r.chance(1, 6) {
         let seed = crate::props::c01::seed_rdata(r, 250);
